@@ -703,7 +703,12 @@ EVIL_PATHS = [b'//outside/secret.txt', b'/../outside/secret.txt', b'../outside/s
               b'/l/outside/secret.txt', b'/l/new', b'/sub', b'/sub/f', b'/f', b'/sub/d2', b'/d3',
               # siblings of the root whose names have the root's name as a string prefix
               b'//root-private/secret.txt', b'/../root-private/secret.txt', b'/../root2/secret.txt',
-              b'/l/root-private/secret.txt', b'/sub/l/secret.txt', b'/l/new2', b'/sub/x']
+              b'/l/root-private/secret.txt', b'/sub/l/secret.txt', b'/l/new2', b'/sub/x',
+              # the ABSOLUTE name of the world outside the root, behind spellings posixpath.normpath keeps (`//`): a
+              # mapping that leaves the name absolute makes os.path.join drop the root (@ABS@ = the scratch directory)
+              b'//@ABS@/outside/secret.txt', b'//@ABS@/outside/new-abs', b'//../..@ABS@/outside/secret.txt',
+              b'//@ABS@/root2/secret.txt', b'/@ABS@/outside/secret.txt', b'///@ABS@/outside/secret.txt',
+              b'//@ABS@/outside']
 
 
 def gen_history(rng: Any) -> List[Tuple[str, bytes, bytes]]:
@@ -756,6 +761,8 @@ async def run_history(base: str, history: List[Tuple[str, bytes, bytes]]) -> Lis
     leaks: List[str] = []
     c, s, hub = await pair.make_pair(server_opts=dict(sftp_factory=lambda chan: sftpmod.SFTPServer(chan, chroot=os.fsencode(root))))
     try:
+        absb = os.fsencode(base).lstrip(b'/')
+        history = [(op, a.replace(b'@ABS@', absb), b.replace(b'@ABS@', absb)) for op, a, b in history]
         async with c.start_sftp_client() as sftp:
             for i, (op, a, b) in enumerate(history):
                 try:
@@ -858,6 +865,10 @@ HISTORY_CORPUS = [
     [('symlink', b'x/../../outside', b'/sub/l'), ('symlink', b'/sub', b'/sub/x'), ('read', b'/sub/l/secret.txt', b'')],
     [('symlink', b'..', b'/sub/l'), ('link', b'/sub/l', b'/l'), ('read', b'/l/outside/secret.txt', b'')],
     [('read', b'//outside/secret.txt', b'')],
+    [('read', b'//@ABS@/outside/secret.txt', b'')],
+    [('write', b'//@ABS@/outside/new-abs', b'')],
+    [('listdir', b'//@ABS@/outside', b'')],
+    [('rename', b'/f', b'//@ABS@/outside/moved-out')],
     [('read', b'//../outside/secret.txt', b'')],
     [('write', b'//outside/new', b'')],
     [('symlink', b'//outside', b'/l'), ('read', b'/l/secret.txt', b'')],
